@@ -430,6 +430,146 @@ def check_continuation(ctx, n):
                    "correspondence": "FV.C13.Cont.joined vs FortranFile.get_code_line(forward) + join"}, found_input=False)
 
 
+SEMI_IMPORTS = "From FV Require Import Base.Str C13.Semi."
+
+SEMI_PROGRAM = [
+    ("module semi_m", "struct"), ("implicit none", "plain"),
+    ("character(len=3), parameter :: tag = 'a;c'", "decl"), ("integer :: n_items", "decl"),
+    ("character(len=5), parameter :: msg = \"it's!\"", "decl"), ("real :: width", "decl"),
+    ("character(len=4), parameter :: both = 'x\"y;'", "decl"), ("include 'semi_inc.h'", "decl"), ("logical :: flag", "decl"),
+    ("contains", "plain"), ("subroutine semi_s()", "struct"), ("print *, 'p;q'", "exec"), ("n_items = 1", "exec"),
+    ("end subroutine semi_s", "struct"), ("end module semi_m", "struct"),
+]
+SEMI_INCLUDE = "integer :: from_include\n"
+SEMI_WORDS = ("tag", "n_items", "msg", "width", "both", "flag", "from_include")
+
+
+def _semi_statement(rng):
+    """a statement in the sense of C13.Semi.statement: literals closed, `;` and `!` only inside literals"""
+    out = ["q="]
+    for _ in range(rng.choice([0, 1, 1, 2, 3])):
+        if rng.random() < 0.6:
+            q = rng.choice("'\"")
+            body = "".join(rng.choice("ab ;!&" + ("\"" if q == "'" else "'")) for _ in range(rng.choice([0, 1, 2, 4])))
+            out.append(q + body + q)
+        else:
+            out.append("".join(rng.choice("ab =+") for _ in range(rng.choice([1, 2, 3]))))
+    return "".join(out).rstrip() or "q"
+
+
+def semicolon_dump(lines, root):
+    """(hover text per word, document symbols) of the module written with the given lines"""
+    path = os.path.join(root, "semi.f90")
+    with open(path, "w") as f:
+        f.write("\n".join(lines) + "\n")
+    with open(os.path.join(root, "semi_inc.h"), "w") as f:
+        f.write(SEMI_INCLUDE)
+    srv, conn = impl.make_server(root, extra=["--nthreads", "1"])
+    conn.take()
+    impl.did_open(srv, path)
+    conn.take()
+    hovers = []
+    for w in SEMI_WORDS:
+        at = next(((i, l.find(w)) for i, l in enumerate(lines) if w in l), None)
+        r = None
+        if at:
+            r, _ = impl.request(srv, conn, "textDocument/hover", impl.pos_params(path, at[0], at[1] + 1))
+        hovers.append((w, " ".join(r[2]["contents"]["value"].split()) if r and r[0] == "r" and r[2] else None))
+    # the entity declared in the included file: definition of a use of it is not needed, completion of the module lists it
+    mod = srv.obj_tree.get("semi_m")
+    names = sorted(c.name.lower() for c in mod[0].get_children()) if mod else None
+    return hovers, names
+
+
+def check_semicolon(ctx, n):
+    """C13/Semi.v against the implementation: strip_strings(maintain_len) itself, and the pieces parse() pushes on its stack
+    for a line with semicolons (recorded by a deque that notes extendleft); ground truth = the statements that were joined.
+    Then end to end: a module whose statements carry literals with `;`, `!` and the other quote, and an INCLUDE, written one
+    statement per line and with statements joined by `;` -- same hovers (PARAMETER values), same entities."""
+    import collections
+    from fortls.helper_functions import strip_strings
+    from fortls.parsers.internal import parser as P
+    coq = ctx.coq(SEMI_IMPORTS)
+    exprs, meta = [], []
+    # 1. strip_strings on arbitrary lines (unclosed literals included)
+    for _ in range(n):
+        line = "".join(ctx.rng.choice("ab '\";!=") for _ in range(ctx.rng.choice([0, 1, 3, 6, 10, 16])))
+        got = strip_strings(line, maintain_len=True)
+        ctx.count(("strip", line), "'" in line or '"' in line)
+        exprs.append("str_eqb (strip_strings %s) %s" % (cstr(line), cstr(got)))
+        meta.append({"what": "strip_strings", "line": line, "implementation": got})
+    # 2. the pieces
+    calls = []
+
+    class Rec(collections.deque):
+        def extendleft(self, it):
+            it = list(it)
+            calls.append(it)
+            return super().extendleft(it)
+    saved = P.deque
+    P.deque = Rec
+    try:
+        for k in range(n):
+            if k % 3 == 0:
+                line = "q=" + "".join(ctx.rng.choice("ab '\";!=") for _ in range(ctx.rng.choice([1, 3, 6, 10, 16]))).rstrip()
+                truth = None
+            else:
+                ss = [_semi_statement(ctx.rng) for _ in range(ctx.rng.choice([1, 2, 2, 3, 4]))]
+                line = ";".join(ss) + ctx.rng.choice(["", "", "! note; more", "!'"])
+                truth = ss
+            del calls[:]
+            f = P.FortranFile("/nonexistent/semi.f90")
+            f.set_contents([line])
+            try:
+                f.parse()
+            except Exception as ex:      # noqa: BLE001
+                ctx.report("C13:semicolon-crash", "parse() raises %s on a line with semicolons" % type(ex).__name__,
+                           {"kind": "counterexample", "input": {"text": line}})
+                continue
+            got = calls[0] if calls else None
+            ctx.count(("semi", line), got is not None)
+            if truth is not None:
+                want = truth if len(truth) > 1 else None
+                if got != want:
+                    ctx.report("C13:semicolon-literal", "statements joined by `;` are not handed on as written: %r" % (got,),
+                               {"kind": "counterexample", "input": {"text": line, "statements": truth}, "implementation": got, "oracle": want})
+            exprs.append("lines_eqb (statements %s) %s" % (cstr(line), clist(got, cstr)) if got is not None
+                         else "Nat.eqb (length (statements %s)) 1" % cstr(line))
+            meta.append({"what": "statements", "line": line, "implementation": got})
+    finally:
+        P.deque = saved
+    bad = coq.bools(exprs, shard=400)
+    ctx.cov["traces_validated_against_impl"] += len(exprs)
+    for b in bad[:3]:
+        ctx.report("C13:model-impl-mismatch", "%s differs from C13.Semi on %r" % (meta[b]["what"], meta[b]["line"]),
+                   {"kind": "broken-correspondence", "input": meta[b], "correspondence": "FV.C13.Semi.%s" % meta[b]["what"]}, found_input=False)
+    # 3. end to end
+    root = tempfile.mkdtemp(prefix="verif_c13s_")
+    try:
+        base_lines = [t for t, _ in SEMI_PROGRAM]
+        base = semicolon_dump(base_lines, root)
+        for trial in range(3 if ctx.quick() else 30):
+            lines, i = [], 0
+            while i < len(SEMI_PROGRAM):
+                t, kind = SEMI_PROGRAM[i]
+                j = i + 1
+                while j < len(SEMI_PROGRAM) and SEMI_PROGRAM[j][1] == kind and kind in ("decl", "exec") and (trial == 0 or ctx.rng.random() < 0.6):
+                    t = t + ctx.rng.choice(["; ", ";", " ; "]) + SEMI_PROGRAM[j][0]
+                    j += 1
+                lines.append(t + (ctx.rng.choice(["", " ! note; more"]) if trial else ""))
+                i = j
+            got = semicolon_dump(lines, root)
+            ctx.count(("semi-e2e", tuple(lines)), True)
+            if got != base:
+                ctx.report("C13:semicolon-literal", "hovers/entities of a module change when its statements are joined by `;`: %s"
+                           % [(a, b) for a, b in zip(base[0], got[0]) if a != b][:3],
+                           {"kind": "counterexample", "input": {"original": "\n".join(base_lines), "text": "\n".join(lines), "transformations": ["semicolon"]},
+                            "implementation": got, "oracle": base})
+                break
+    finally:
+        shutil.rmtree(root, ignore_errors=True)
+
+
 def known_mixed_quotes(ctx):
     """witness of C13_refuted_mixed_quotes on the implementation"""
     a = dump("program p\ncharacter(len=20) :: s\ns = \"it's\" // 'a!b'; integer :: zz\nend program p\n")
@@ -462,8 +602,9 @@ def run(ctx):
         "metamorphic oracle over the C04 program generator (harness/props/c13.py)",
     ]
     ctx.assumptions = [
-        "partial: continuation gathering, `;` splitting and the statement readers are not modelled; they are exercised by the metamorphic oracle",
-        "transformations are applied to generated free-form programs whose statements contain no character literals; "
+        "partial: the statement readers are not modelled (continuation gathering: C13/Cont.v, `;` splitting: C13/Semi.v); they are exercised by the metamorphic oracle",
+        "the random transformations are applied to generated free-form programs whose statements contain no character literals (a directed module with "
+        "literals that hold `;`, `!` and the other quote is joined by `;` in check_semicolon); "
         "mixed quote kinds are a known finding (C13:mixed-quotes)",
         "continuation and `;` joining are applied to declarations and executable statements, not to the statements that open/close constructs",
     ]
@@ -477,6 +618,7 @@ def run(ctx):
     check_splitlines(ctx, 200 if q else 4000)
     known_mixed_quotes(ctx)
     check_continuation(ctx, 300 if q else 6000)
+    check_semicolon(ctx, 240 if q else 4000)
     check_metamorphic(ctx, 40 if q else 800)
     check_fixed_comments(ctx)
 
